@@ -90,9 +90,9 @@ def random_defects(rng, sup, ndef):
             if i in used: continue
             sitechem = sup.atomindices[i % sup.N][0]
             if sitechem in sup.interstitial:
-                c = rng.choice([sitechem] + ([crysN] if sup.Nchem > crysN else []))
+                c = rng.choice([sitechem] + list(range(crysN, sup.Nchem)))
             else:
-                opts = [-1] + ([crysN] if sup.Nchem > crysN else []) + \
+                opts = [-1] + list(range(crysN, sup.Nchem)) + \
                        [c for c in range(crysN) if c != sitechem and c not in sup.interstitial]
                 c = rng.choice(opts)
             used.add(i)
@@ -219,7 +219,8 @@ class CellCases:
 
 def run(ck):
     ck.rule = ("3-D crystal pool (named + random systems, 1-2 species, 1-3 atoms) x random supercell matrices (|det| <= %d, "
-               "symmetric and symmetry-breaking) x interstitial/solute settings x random occupations (1-3 point defects); per "
+               "symmetric and symmetry-breaking) x interstitial/solute settings (always incl. two solutes sharing a name: undefined, equal, "
+               "named like a host species) x random occupations (1-3 point defects); per "
                "supercell: every operation of G through the Coq checkers, and pairs related by a random operation + random "
                "reordering / unrelated with equal defect counts / unrelated with different counts / defect-free; plus histories on ONE "
                "object (defectindices/KrogerVink/str/equivalencemap interleaved with sup *= g, setocc, fillperiodic, reorder, copy) compared "
@@ -242,7 +243,7 @@ def run(ck):
     jobs = []
     skipped = {"irrational-geometry": 0, "too-large": 0, "construct-failed": 0}
     stats = {"operations_checked": 0, "pairs_related": 0, "pairs_unrelated_same_counts": 0, "pairs_different_counts": 0,
-             "pairs_defect_free": 0, "history_steps": 0, "answers_none": 0, "answers_found": 0, "unrelated_but_equivalent": 0}
+             "pairs_defect_free": 0, "pairs_same_name": 0, "history_steps": 0, "answers_none": 0, "answers_found": 0, "unrelated_but_equivalent": 0}
     cells = 0
     for label, crys, chem in gen.pool(rng, 4 * ncells, dims=(3,), random_frac=0.5, maxatoms=2):
         if cells >= ncells: break
@@ -254,17 +255,26 @@ def run(ck):
             skipped["too-large"] += 1; continue
         inter = tuple(c for c in range(crys.Nchem) if crys.Nchem > 1 and c == chem and rng.random() < 0.6)
         ns = rng.choice([0, 1, 1, 2])
+        # the first cells of every run have two solutes that SHARE a name: undefined (both ''), given equal names, or one named
+        # like a host species -- the name-keyed defect sets then cannot tell the species apart, the occupation arrays can
+        naming = ["undefined", "equal", "like-host"][cells] if cells < 3 else (rng.choice(["undefined", "distinct", "equal"]) if ns == 2 else None)
+        if cells < 3: ns = 2
         try:
             with warnings.catch_warnings():
                 warnings.simplefilter("ignore")
-                sup = base_filled(supercell.Supercell(crys, sl, interstitial=inter, Nsolute=ns))
+                sup = supercell.Supercell(crys, sl, interstitial=inter, Nsolute=ns)
+                if naming == "equal": sup.definesolute(crys.Nchem, "X"); sup.definesolute(crys.Nchem + 1, "X")
+                elif naming == "like-host": sup.definesolute(crys.Nchem, crys.chemistry[0]); sup.definesolute(crys.Nchem + 1, "Y")
+                elif naming == "distinct": sup.definesolute(crys.Nchem, "X"); sup.definesolute(crys.Nchem + 1, "Y")
+                sup = base_filled(sup)
         except Exception as e:
             skipped["construct-failed"] += 1; continue
         cells += 1
         N = sup.N * sup.size
         spec = dict(label=label, lattice=crys.lattice.tolist(), basis=[[u.tolist() for u in b] for b in crys.basis],
-                    superlatt=sl.tolist(), interstitial=list(inter), Nsolute=ns)
-        kind = "%s-N%d-G%d%s%s" % (label.split("-")[0], N, len(sup.G), "-int" if inter else "", "-sol%d" % ns if ns else "")
+                    superlatt=sl.tolist(), interstitial=list(inter), Nsolute=ns, chemistry=list(sup.chemistry))
+        kind = "%s-N%d-G%d%s%s%s" % (label.split("-")[0], N, len(sup.G), "-int" if inter else "", "-sol%d" % ns if ns else "",
+                                     "-names:" + naming if naming else "")
         # ---- A. the group -------------------------------------------------------------------
         bad, idxset = group_evaluator(sup)
         for k_, b in bad: violation("c27-group-" + k_, "%s superlatt %s: %s" % (label, sl.tolist(), b), dict(cfg=spec, what=b))
@@ -348,6 +358,30 @@ def run(ck):
             B3, k3 = random_defects(rng, sup, len(kinds) + 1)
             stats["pairs_different_counts"] += 1
             add_pair(A, B3, "different-counts")
+        # ---- B2. two solutes that share a name: pairs related by an operation, the same with the two species swapped, unrelated
+        if ns >= 2:
+            c1, c2 = crys.Nchem, crys.Nchem + 1
+            hostsites = [i for i in range(N) if sup.atomindices[i % sup.N][0] not in sup.interstitial]
+            for _ in range(ck.n(4, 8)):
+                if len(hostsites) < 2: break
+                i, j = rng.sample(hostsites, 2)
+                A = sup.copy(); A.setocc(i, c1); A.setocc(j, c2)
+                if len(hostsites) > 2 and rng.random() < 0.5:
+                    A.setocc(rng.choice([k for k in hostsites if k not in (i, j)]), -1)
+                g = rng.choice(G)
+                B = g * A
+                B.reorder([rng.sample(range(len(l)), len(l)) for l in B.chemorder])
+                stats["pairs_same_name"] += 1
+                add_pair(A, B, "same-name-related")
+                Bs = B.copy()                                   # the same sites, the two same-named species exchanged
+                gi, gj = g.indexmap[0][i], g.indexmap[0][j]
+                Bs.setocc(gi, -1); Bs.setocc(gj, c1); Bs.setocc(gi, c2)
+                stats["pairs_same_name"] += 1
+                add_pair(A, Bs, "same-name-swapped")
+                i2, j2 = rng.sample(hostsites, 2)
+                C = sup.copy(); C.setocc(i2, c2); C.setocc(j2, c1)
+                stats["pairs_same_name"] += 1
+                add_pair(A, C, "same-name-other-sites")
         # ---- C. histories on ONE object: derived views (defectindices, KrogerVink, str, equivalencemap) interleaved with
         #         in-place operations; after every step everything is compared with a FRESH supercell of the same content
         for _h in range(ck.n(1, 3)):
@@ -374,7 +408,7 @@ def run(ck):
                 elif r < 0.78:
                     i = rng.randrange(N)
                     sitechem = sup.atomindices[i % sup.N][0]
-                    c = rng.choice([sitechem, -1] + ([sup.crys.Nchem] if sup.Nchem > sup.crys.Nchem else []))
+                    c = rng.choice([sitechem, -1] + list(range(sup.crys.Nchem, sup.Nchem)))
                     if sitechem in sup.interstitial and c == sitechem and rng.random() < 0.5: c = -1
                     hist.append(["setocc", i, c]); H.setocc(i, c)
                 elif r < 0.83:
@@ -388,6 +422,7 @@ def run(ck):
                 # a fresh object with the same occupation and ordering, built through the public editing interface
                 F = supercell.Supercell(crys, sl, interstitial=inter, Nsolute=ns, NOSYM=True)
                 F.G = sup.G
+                F.chemistry = list(sup.chemistry)
                 for c_, l in enumerate(H.chemorder):
                     for i in l: F.setocc(i, c_)
                 stats["history_steps"] += 1
@@ -464,6 +499,7 @@ def replay(ck, path):
     with warnings.catch_warnings():
         warnings.simplefilter("ignore")
         sup = supercell.Supercell(crys, np.array(c["superlatt"], dtype=int), interstitial=tuple(c["interstitial"]), Nsolute=c["Nsolute"])
+    if "chemistry" in c: sup.chemistry = list(c["chemistry"])
     bad = 0
     if "self_state" in r:
         A, B = sup.copy(), sup.copy()
